@@ -40,6 +40,7 @@ class Gen:
         self.globals = []
         self.scopes = []
         self.in_loop = 0
+        self.cur_ret = None    # return type of the function being generated (None: no early returns)
         self.ctx = 'plain'     # 'plain' ordinary function / `??` operand, 'you', 'try' (try body), 'defeat' (defeat function)
         self.max_int = (1 << (8 * w - 1)) - 1
 
@@ -141,6 +142,8 @@ class Gen:
         return ('',)
 
     def arg_for(self, pv, d):
+        if pv.arr and pv.el != STRING and self.r.random() < 0.2:
+            return '[%s]' % ', '.join(self.expr(pv.el, max(d - 1, 0)) for _ in range(self.r.randrange(max(pv.length or 1, 1), 4)))
         if pv.arr:
             cands = self.vars(lambda v: v.arr and v.el == pv.el and (pv.const or not v.const) and
                               (pv.length is None or (v.length or 0) >= pv.length))
@@ -419,6 +422,9 @@ class Gen:
         c = r.random()
         if d <= 0:
             return r.choice([self.write_stmt, self.assign_stmt])(1)
+        if self.cur_ret is not None and r.random() < 0.07:
+            val = '' if self.cur_ret == 'empty' else ' ' + self.expr(self.cur_ret, 1)
+            return 'if (%s) { %sreturn%s; }' % (self.bool_expr(d - 1), self.write_stmt(1) + ' ' if r.random() < 0.5 else '', val)
         tt = self.feat['tt']
         if tt and self.ctx == 'you':
             x = r.random()
@@ -529,9 +535,13 @@ class Gen:
         n = r.choice([1, 2, 3, 4])
         self.in_loop += 1
         self.scopes.append([Var(i, INT, const=True)])   # const: the body must not assign the counter
-        if r.random() < 0.6:
+        c = r.random()
+        if c < 0.5:
             body = self.block(d - 1)
             s = 'for (int %s = 0; %s < %d; %s += 1) %s' % (i, i, n, i, body)
+        elif c < 0.65:
+            body = self.block(d - 1)
+            s = '{ int %s = 0; while (true) { %s += 1; if (%s > %d) { break; } %s } }' % (i, i, i, n, body)
         else:
             body = self.block(d - 1)
             s = '{ int %s = 0; while (%s < %d) { %s += 1; %s } }' % (i, i, n, i, body)
@@ -591,6 +601,7 @@ class Gen:
             name = flavor + self.fresh('fn')
         f = Func(name, ret, params, flavor)
         self.cur_func = f
+        self.cur_ret = ret
         self.ctx = {'': 'plain', '!': 'defeat', '@': 'you'}[flavor]
         n = r.randrange(1, 4)
         at = r.randrange(0, n + 1) if flavor == '!' and r.random() < 0.7 else -1
@@ -603,6 +614,7 @@ class Gen:
         if ret != 'empty':
             body.append('return %s;' % self.expr(ret, 2))
         self.ctx = 'plain'
+        self.cur_ret = None
         self.cur_func = None
         self.scopes.pop()
         self.funcs.append(f)
@@ -686,8 +698,10 @@ class Gen:
                 ptxt.append('const string[] ' + n)
                 inputs.append('string[]')
         self.ctx = 'you'
+        self.cur_ret = 'empty'
         body = [self.stmt(self.feat['depth']) for _ in range(r.randrange(2, self.feat['stmts'] + 1))]
         self.ctx = 'plain'
+        self.cur_ret = None
         # make array parameters observable
         for v in self.scopes[-1]:
             if v.arr and v.el == INT:
